@@ -114,6 +114,9 @@ def check_case(case) -> Outcome:
         data, kw = df, {}
     elif mat == "nw-pandas":
         data, kw = df, {"materializer": "narwhals"}
+    elif mat == "pandas-dict":
+        # the same columns handed over as a plain mapping of Series
+        data, kw = {c: df[c] for c in df.columns}, {"materializer": "pandas"}
     else:
         import pyarrow as pa
 
@@ -193,7 +196,7 @@ def gen():
             "a": draw(st.lists(st.sampled_from([-1.0, 0.5, 1.0, 2.0, 3.0]), min_size=8, max_size=8)),
             "b": draw(st.lists(st.integers(0, 2), min_size=8, max_size=8)),
             "formula": draw(st.integers(0, len(FORMULAS) - 1)), "intercept": draw(st.booleans()),
-            "mat": draw(st.sampled_from(["pandas", "pandas", "nw-pandas", "nw-arrow"])),
+            "mat": draw(st.sampled_from(["pandas", "pandas", "nw-pandas", "nw-arrow", "pandas-dict"])),
             "output": draw(st.sampled_from(["pandas", "numpy", "sparse"])), "efr": draw(st.booleans()),
             "nulls": draw(st.one_of(st.just([]), st.just([]), st.lists(st.integers(0, 7), min_size=1, max_size=2))),
             "prime": draw(st.integers(0, 4)) == 0,
